@@ -351,13 +351,13 @@ impl TextSelection {
                         x
                     }
                     Cursor::EndAligned(x) => {
-                        if x > 0 || textlen < x.abs() as usize {
+                        if x > 0 || textlen < x.unsigned_abs() {
                             return Err(StamError::CursorOutOfBounds(
                                 offset.begin,
                                 "(textselection_by_offset)",
                             ));
                         } else {
-                            textlen - (x.abs() as usize)
+                            textlen - x.unsigned_abs()
                         }
                     }
                 },
@@ -375,13 +375,13 @@ impl TextSelection {
                         x
                     }
                     Cursor::EndAligned(x) => {
-                        if x > 0 || textlen < x.abs() as usize {
+                        if x > 0 || textlen < x.unsigned_abs() {
                             return Err(StamError::CursorOutOfBounds(
                                 offset.end,
                                 "(textselection_by_offset)",
                             ));
                         } else {
-                            textlen - (x.abs() as usize)
+                            textlen - x.unsigned_abs()
                         }
                     }
                 },
@@ -400,13 +400,13 @@ impl TextSelection {
                         Cursor::EndAligned(cursor),
                         "TextSelection::beginaligned_cursor(): end aligned cursor must be zero or negative",
                     ))
-                } else if cursor.abs() as usize > textlen {
+                } else if cursor.unsigned_abs() > textlen {
                     Err(StamError::CursorOutOfBounds(
                         Cursor::EndAligned(cursor),
                         "TextResource::beginaligned_cursor(): end aligned cursor ends up before the beginning",
                     ))
                 } else {
-                    Ok(textlen - cursor.abs() as usize)
+                    Ok(textlen - cursor.unsigned_abs())
                 }
             }
         }
